@@ -171,6 +171,10 @@ theorem nonrevoc_enforced (m : OvfMode) (common : List String) (c : Int) (sp : S
     | ok nr =>
       rw [hn] at h
       simp only [Outcome.bind_ok] at h
+      by_cases hall : (!(common.all fun a =>
+          (unrevealedOf vc.schema vc.nonSchema vc.req.revealed).contains a)) = true
+      · rw [if_pos hall] at h; simp at h
+      rw [if_neg hall] at h
       cases h1 : commonPass common sp.eq seen common with
       | ok seen' =>
         rw [h1] at h; simp only [Outcome.bind_ok] at h
